@@ -235,7 +235,11 @@ def ds9_file(draw, max_stmts):
             stmts.append({'k': 'comment', 'text': draw(st.sampled_from(
                 ['just a comment', 'circle(1,2,3)', 'a; b; fk5',
                  'global color=red', 'Filename: x.fits',
-                 'note\u2028circle(1,2,3)', 'fk5\x0cicrs\x85galactic']))})
+                 'note\u2028circle(1,2,3)', 'fk5\x0cicrs\x85galactic',
+                 'disabled: box(1,2,3,4,0); circle(50,60,7)',
+                 'was: galactic; galactic'])),
+                'indent': draw(st.sampled_from(['', '', '  ', '\t', ' \t '])),
+            })
         elif kind == 'blank':
             stmts.append({'k': 'blank'})
         elif kind == 'global':
